@@ -13,9 +13,9 @@ PROP = dict(
           "width, max_value) or by loading a P6/P7 file with that MAXVAL; the model carries the value, and after every operation it is observed through the alpha that "
           "read_pixel reports on an opaque canvas and through operator== against an image constructed with the model's geometry, bytes and maximum value). Exhaustive part: every canvas 0..4 (quick) / 0..8 (thorough) per side with every coordinate in [-2,size+2] / [-3,size+3]: "
           "pixel access and fill_rect over the full 2-D product, the ten blits over (x, w, sx, dest size, source size) of one axis x 8 fixed "
-          "configurations of the other axis and transposed, draw_line over all end-point pairs, dashed lines, text positions, every text length 0..600 (quick) / 0..2100 (thorough) and 2^k-3..2^k+2 up to 4096 / 65536, as one line and "
-          "with line breaks, positioned so that the END of the text is on the canvas, whole-image transforms and identities (also on canvases with 4 other maximum values). Random part (rapidcheck): full-product sampling on canvases up to 40x40, coordinates incl. +-2^31, histories on two "
-          "canvases, clipping-invariance pairs, identities (pixelwise and by operator==), a tenth of the random texts long (8..300 characters or 2^k+-2) with their end placed on the canvas. Non-trivial: the requested rectangle / segment / glyph box is cut by at least one "
+          "configurations of the other axis and transposed, draw_line over all end-point pairs, dashed lines, text positions (9 texts, three of them with zero bytes in the formatted output; 5 overloads x 4 ways of formatting: '%s', '%s%c%s', the text itself as the format with doubled '%' and %c for zero bytes, '%c' alone), every text length 0..600 (quick) / 0..2100 (thorough) and 2^k-3..2^k+2 up to 4096 / 65536, as one line and "
+          "with line breaks, positioned so that the END of the text is on the canvas, whole-image transforms and identities (also on canvases with 4 other maximum values); the whole-image transforms (mirror both ways, mirror twice, invert, set_has_alpha, set_channel_width, copies) also on 10 very wide canvases of 1..5 rows - rows of 8.8-9.6 MB executed on a thread with an explicit 8 MiB stack, rows of 0.5-0.7 MB on a 512 KiB stack - compared with the model on a mirror-symmetric sample of ~900 columns (subcheck wide). Random part (rapidcheck): full-product sampling on canvases up to 40x40, coordinates incl. +-2^31, histories on two "
+          "canvases, clipping-invariance pairs, identities (pixelwise and by operator==), a tenth of the random texts long (8..300 characters or 2^k+-2) with their end placed on the canvas; random texts are byte strings over all 256 values including 0 (up to 8 zero bytes), handed to draw_text through one of the four formats. Non-trivial: the requested rectangle / segment / glyph box is cut by at least one "
           "canvas edge (destination or source) or the pixel coordinate is outside; histories additionally use >= 2 kinds of operation. "
           "Distinct by (operation, canvas geometry, arguments) hash."),
     assumptions=[
@@ -25,7 +25,10 @@ PROP = dict(
         "resize_blit only with arguments inside both canvases, w,h >= 2, and channel widths <= 32 (its double arithmetic cannot hold 64-bit samples); compared to a bilinear reference with a tolerance of one unit",
         "lines: exact path properties for in-canvas end points, subset-of-ideal-pixels otherwise (phosg stops at the first pixel outside the canvas)",
         "|coordinates| <= 2^31+4 (direct pixel access also INT64_MIN/MAX); dash lengths <= 64 when the coordinates are huge (cost only)",
-        "draw_text is always called with the format \"%s\"; its width/height out-parameters are not part of the property and are not asserted",
+        "draw_text is called with the formats \"%s\", \"%s%c%s\", \"%c\" or the text itself as the format ('%' doubled, each zero byte a %c with argument 0); the formatted text is a byte string with a length, "
+        "a zero byte in it is an unprintable character like any other (drawn as the 0x7F glyph); at most 8 zero bytes per text; its width/height out-parameters are not part of the property and are not asserted",
+        "wide canvases (subcheck wide): at most 48 MiB of pixels and 16 rows; only the sampled columns (both ends, middle, a regular grid, pseudo-random ones, closed under mirroring) are compared; "
+        "a whole-image transform may not need stack space that grows with the canvas (it runs on a thread with an 8 MiB or 512 KiB stack)",
         "a canvas's maximum sample value lies in [1, all-ones of the channel width]; the colour rules that use it (alpha of an opaque canvas, set_has_alpha, set_alpha_from_mask_color, "
         "invert, blend_blit) are mirrored from phosg with that value in place of the all-ones value; copies carry it, set_channel_width to another width resets it to all-ones",
         "widen-then-narrow on a canvas with its own maximum value is compared pixelwise only (set_channel_width resets the maximum value by design, so operator== with the original is false)",
